@@ -138,8 +138,7 @@ Lemma fill_rect_effect st x y w h src o st' : fill_rect st x y w h src o = Ok st
 Proof.
   unfold fill_rect. intros H.
   destruct (xf_is_identity (d_ctm st) && _ && _).
-  - destruct (chk32 _) as [xr|]; [|discriminate]. cbn [bind] in H.
-    destruct (chk32 _) as [yb|]; [|discriminate]. cbn [bind] in H.
+  - cbv zeta in H.
     destruct (r_empty _).
     + inversion H; subst. apply eff_nothing, vis_refl.
     + eapply (eff_composite st st' st st' (d_ctm st)).
@@ -161,8 +160,7 @@ Qed.
 
 Lemma mask_effect st src x y mw mh data st' : mask_op st src x y mw mh data = Ok st' -> effect st st'.
 Proof.
-  unfold mask_op. intros H.
-  destruct (chk32 _); [|discriminate]. cbn [bind] in H. destruct (chk32 _); [|discriminate]. cbn [bind] in H.
+  unfold mask_op. intros H. cbv zeta in H.
   eapply (eff_composite st st' st st' (d_ctm st)).
   - rewrite with_ctm_self. apply vis_refl.
   - exact H.
